@@ -337,7 +337,7 @@ func (e *handlerStore[T]) off(handler ...T) {
 		for _, h := range slice {
 			named := false
 			for _, _h := range handler {
-				if h == _h {
+				if sameHandler(h, _h) {
 					named = true
 					break
 				}
@@ -351,6 +351,25 @@ func (e *handlerStore[T]) off(handler ...T) {
 
 	e.funcs = filter(e.funcs)
 	e.funcsOnce = filter(e.funcsOnce)
+}
+
+// Lifecycle handlers are stored as pointers to a copy of the function the user passed,
+// and the `Off...` methods receive yet another copy, so comparing the pointers
+// can never match. Functions themselves are not comparable in Go;
+// identify them the way eventHandlerStore does, by their code pointer.
+func sameHandler[T comparable](a, b T) bool {
+	if a == b {
+		return true
+	}
+	av, bv := reflect.ValueOf(a), reflect.ValueOf(b)
+	if av.Kind() != reflect.Ptr || bv.Kind() != reflect.Ptr || av.IsNil() || bv.IsNil() {
+		return false
+	}
+	av, bv = av.Elem(), bv.Elem()
+	if av.Kind() != reflect.Func || bv.Kind() != reflect.Func || av.IsNil() || bv.IsNil() {
+		return false
+	}
+	return av.Pointer() == bv.Pointer()
 }
 
 func (e *handlerStore[T]) offAll() {
